@@ -382,6 +382,7 @@ type smHub struct {
 	plan   []entranceResp                        // responses for the next entrances
 	extra  int                                   // entrances without a planned response
 	acts   chan tmeil.StateMachineRoundAction
+	free   bool // free run: answer unplanned round entrances with an empty view of the entered round
 	// action channels of earlier entrances that may still hold an undrained action
 	oldActs []chan tmeil.StateMachineRoundAction
 	hc     chan<- struct{}
@@ -574,9 +575,11 @@ func (r *smRig) start() {
 				r.hub.acts = re.Actions
 				r.hub.hc = re.HeightCommitted
 				var resp *entranceResp
-				if len(r.hub.plan) > 0 {
+				if len(r.hub.plan) > 0 && !r.hub.free {
 					resp = &r.hub.plan[0]
 					r.hub.plan = r.hub.plan[1:]
+				} else if r.hub.free {
+					resp = &entranceResp{Kind: "VRV", V: absView{H: re.H, R: re.R, Ver: 1, Pv: map[string][]int{}, Pc: map[string][]int{}}}
 				} else {
 					r.hub.extra++
 				}
@@ -831,6 +834,11 @@ func (rn *smRunner) run(b smBehaviour) {
 	decides := map[[2]uint64]int{}
 	var lastEntered, wantResume [2]uint64
 	haveEntered, haveResume := false, false
+	// diverged: the real state machine left the model's prediction.  The rest of the behaviour is a free run:
+	// events are still delivered when the real state machine can take them, round entrances are answered with
+	// an empty view of the entered round, nothing is compared with the model any more, and the property
+	// predicates (which never depended on the model) keep being evaluated on the real outputs.
+	diverged := false
 	curView := absView{}
 
 	for i, s := range b.Steps {
@@ -846,6 +854,20 @@ func (rn *smRunner) run(b smBehaviour) {
 			resps = append(resps, e)
 		}
 		expectEvent := true
+		extraEvent := false
+		div := func(d []string) {
+			if !diverged {
+				rn.mismatch(b.ID, i, s, d)
+				diverged = true
+				hub.mu.Lock()
+				hub.free = true
+				hub.plan = nil
+				hub.mu.Unlock()
+			}
+		}
+		if diverged && r == nil && s.Op != "Restart" {
+			continue
+		}
 		n0 := 0
 		if r != nil {
 			n0 = r.events()
@@ -857,6 +879,9 @@ func (rn *smRunner) run(b smBehaviour) {
 			mustSM(json.Unmarshal(s.Args, &first))
 			hub.mu.Lock()
 			hub.plan = append([]entranceResp{first}, resps...)
+			if diverged {
+				hub.plan = nil
+			}
 			hub.extra = 0
 			hub.mu.Unlock()
 			// C10: the durable position the restarted state machine has to resume at
@@ -896,6 +921,9 @@ func (rn *smRunner) run(b smBehaviour) {
 			select {
 			case r.viewIn <- tmeil.StateMachineRoundView{VRV: hub.concreteView(nv)}:
 			case <-time.After(5 * time.Second):
+				if diverged {
+					continue
+				}
 				rn.out.Emit(vc.M{"kind": "inconclusive", "beh": b.ID, "step": i, "why": "state machine does not read view updates"})
 				return
 			}
@@ -906,6 +934,15 @@ func (rn *smRunner) run(b smBehaviour) {
 				R uint32 `json:"r"`
 			}
 			mustSM(json.Unmarshal(s.Args, &j))
+			if diverged {
+				// a jump-ahead is only ever sent for a round after the one the state machine is in
+				r.evMu.Lock()
+				lk := r.last
+				r.evMu.Unlock()
+				if !(j.H > lk.H || (j.H == lk.H && j.R > lk.R)) || j.H != lk.H {
+					continue
+				}
+			}
 			hub.mu.Lock()
 			hub.plan, hub.extra = resps, 0
 			hub.mu.Unlock()
@@ -913,6 +950,9 @@ func (rn *smRunner) run(b smBehaviour) {
 			select {
 			case r.viewIn <- tmeil.StateMachineRoundView{JumpAheadRoundView: &jv}:
 			case <-time.After(5 * time.Second):
+				if diverged {
+					continue
+				}
 				rn.out.Emit(vc.M{"kind": "inconclusive", "beh": b.ID, "step": i, "why": "state machine does not read view updates"})
 				return
 			}
@@ -921,8 +961,8 @@ func (rn *smRunner) run(b smBehaviour) {
 			hub.plan, hub.extra = resps, 0
 			hub.mu.Unlock()
 			if !r.timer.fire() {
-				rn.mismatch(b.ID, i, s, []string{"spec fires a timer but no timer is armed on the real state machine"})
-				return
+				div([]string{"spec fires a timer but no timer is armed on the real state machine"})
+				continue
 			}
 		case "Strategy":
 			var a struct {
@@ -934,8 +974,8 @@ func (rn *smRunner) run(b smBehaviour) {
 			p := r.strat.pending
 			r.strat.mu.Unlock()
 			if p == nil || p.kind != a.Kind {
-				rn.mismatch(b.ID, i, s, []string{fmt.Sprintf("spec answers a %s call but the real strategy is in %v", a.Kind, r.strat.busy())})
-				return
+				div([]string{fmt.Sprintf("spec answers a %s call but the real strategy is in %v", a.Kind, r.strat.busy())})
+				continue
 			}
 			// an event follows only if the state machine consumes the result
 			expectEvent = false
@@ -961,8 +1001,8 @@ func (rn *smRunner) run(b smBehaviour) {
 			po := r.strat.propOut
 			r.strat.mu.Unlock()
 			if po == nil {
-				rn.mismatch(b.ID, i, s, []string{"spec lets the strategy propose but EnterRound gave no proposal channel"})
-				return
+				div([]string{"spec lets the strategy propose but EnterRound gave no proposal channel"})
+				continue
 			}
 			select {
 			case po <- tmconsensus.Proposal{DataID: "P"}:
@@ -970,6 +1010,20 @@ func (rn *smRunner) run(b smBehaviour) {
 				rn.out.Emit(vc.M{"kind": "inconclusive", "beh": b.ID, "step": i, "why": "proposal channel full"})
 				return
 			}
+		case "ProposalDup":
+			// a duplicate answer of the strategy on the proposal channel of this round (non-blocking: it is 1-buffered)
+			r.strat.mu.Lock()
+			po := r.strat.propOut
+			r.strat.mu.Unlock()
+			if po != nil {
+				select {
+				case po <- tmconsensus.Proposal{DataID: "P2"}:
+				default:
+				}
+			}
+			// nothing is expected to happen; give a state machine that (wrongly) still reads the channel time to act
+			expectEvent = false
+			time.Sleep(25 * time.Millisecond)
 		case "Finalized":
 			hub.mu.Lock()
 			fr := hub.finReq
@@ -977,8 +1031,8 @@ func (rn *smRunner) run(b smBehaviour) {
 			hub.plan, hub.extra = resps, 0
 			hub.mu.Unlock()
 			if fr == nil {
-				rn.mismatch(b.ID, i, s, []string{"spec finalizes but the driver received no finalize request"})
-				return
+				div([]string{"spec finalizes but the driver received no finalize request"})
+				continue
 			}
 			hub.mu.Lock()
 			hub.finalized[fr.Header.Height] = w.Label(string(fr.Header.Hash))
@@ -997,8 +1051,8 @@ func (rn *smRunner) run(b smBehaviour) {
 			hub.plan, hub.extra = resps, 0
 			hub.mu.Unlock()
 			if hc == nil {
-				rn.mismatch(b.ID, i, s, []string{"no height-committed channel"})
-				return
+				div([]string{"no height-committed channel"})
+				continue
 			}
 			close(hc)
 		case "BlockData":
@@ -1023,6 +1077,11 @@ func (rn *smRunner) run(b smBehaviour) {
 		// ---- wait for the state machine to finish the event
 		var k tmstate.VerifRLC
 		died := false
+		if diverged {
+			// free run: nothing is expected; let the state machine and its collaborators settle
+			expectEvent = false
+			time.Sleep(40 * time.Millisecond)
+		}
 		if expectEvent {
 			var ok bool
 			wait := 3 * time.Second
@@ -1034,8 +1093,8 @@ func (rn *smRunner) run(b smBehaviour) {
 				if s.Pan != "" || s.Stop {
 					died = true
 				} else {
-					rn.mismatch(b.ID, i, s, []string{"no state machine event within 3s (the spec expects the step to complete)"})
-					return
+					div([]string{"no state machine event within 3s (the spec expects the step to complete)"})
+					continue
 				}
 			}
 		} else {
@@ -1043,15 +1102,19 @@ func (rn *smRunner) run(b smBehaviour) {
 			r.evMu.Lock()
 			k = r.last
 			r.evMu.Unlock()
-			if r.events() != n0 {
-				rn.mismatch(b.ID, i, s, []string{"the state machine handled an event the spec does not expect"})
-				return
+			if r.events() != n0 && !diverged {
+				// the property predicates are evaluated on what it did before the divergence is reported
+				extraEvent = true
+				time.Sleep(30 * time.Millisecond)
+				r.evMu.Lock()
+				k = r.last
+				r.evMu.Unlock()
 			}
 		}
 		// the consensus manager goroutine calls the strategy asynchronously: when the spec expects a call,
 		// give it time to arrive (a call that never arrives shows up as an output mismatch below)
 		for _, o := range s.O {
-			if o["t"] == "strategy" && !died && r != nil {
+			if o["t"] == "strategy" && !died && r != nil && !diverged {
 				for n := 0; n < 2000 && r.strat.busy() == "idle"; n++ {
 					time.Sleep(time.Millisecond)
 				}
@@ -1059,7 +1122,7 @@ func (rn *smRunner) run(b smBehaviour) {
 		}
 		// outputs recorded by other goroutines (driver, mirror server) may lag behind the hook event:
 		// wait until as many records of each asynchronous kind as the spec expects have arrived
-		if !died && r != nil {
+		if !died && r != nil && !diverged {
 			wantN := map[string]int{}
 			for _, o := range s.O {
 				if t, _ := o["t"].(string); t == "finalizeReq" || t == "entrance" {
@@ -1278,23 +1341,35 @@ func (rn *smRunner) run(b smBehaviour) {
 		extra, left := hub.extra, len(hub.plan)
 		hub.mu.Unlock()
 
+		if diverged {
+			// free run: nothing is compared with the model any more
+			if s.Crash && r != nil {
+				r.stop()
+				r = nil
+			}
+			continue
+		}
 		// ---- expected death / stop
 		if s.Pan != "" {
 			rn.out.Emit(vc.M{"kind": "panic", "beh": b.ID, "step": i, "op": s.Op, "args": s.Args, "expected": s.Pan, "got": "survived"})
-			rn.mismatch(b.ID, i, s, []string{"spec expects panic: " + s.Pan + "; the real state machine survived"})
-			return
+			div([]string{"spec expects panic: " + s.Pan + "; the real state machine survived"})
+			continue
 		}
 		if extra > 0 || left > 0 {
-			rn.mismatch(b.ID, i, s, []string{fmt.Sprintf("round entrances: %d unplanned, %d planned responses unused", extra, left)})
-			return
+			div([]string{fmt.Sprintf("round entrances: %d unplanned, %d planned responses unused", extra, left)})
+			continue
 		}
 
 		// ---- compare outputs (multiset) and state
 		wantO := canonSM(toAnySM(normOutputs(s.O)))
 		gotO := canonSM(toAnySM(normOutputs(outs)))
 		if jsSM(wantO) != jsSM(gotO) {
-			rn.mismatch(b.ID, i, s, []string{"outputs: spec=" + jsSM(wantO) + " real=" + jsSM(gotO)})
-			return
+			div([]string{"outputs: spec=" + jsSM(wantO) + " real=" + jsSM(gotO)})
+			continue
+		}
+		if extraEvent {
+			div([]string{"the state machine handled an event the spec does not expect"})
+			continue
 		}
 		if s.Stop {
 			// the state machine goroutine ended (store refused a write): nothing more to compare
@@ -1324,8 +1399,8 @@ func (rn *smRunner) run(b smBehaviour) {
 				}
 			}
 			sort.Strings(d)
-			rn.mismatch(b.ID, i, s, d)
-			return
+			div(d)
+			continue
 		}
 		rn.distinct[jsSM(ge)] = struct{}{}
 	}
